@@ -93,7 +93,7 @@ def run(ctx):
                         want = want2
                 else:
                     got = bool(ex.sim.is_goal(st))
-                    want = ex.states[rec["sidx"]]["isgoal"]
+                    want = bool(UPSequentialSimulator(ex.gen.problem).is_goal(st))
             except Exception as e:  # noqa
                 got, want = "raised:" + type(e).__name__, "no exception"
             if got != want or ex.ser.read_state(st) != rec["state"]:
